@@ -5,11 +5,11 @@
 
    A container is `C msg_type items`, items an insertion-ordered list (key string, value);
    `keys c = map fst (items c)`; mutating methods return (container afterwards, outcome).
-   The model describes message.py with the four repairs fixes/C18-*.patch applied (dict equality
-   ignores the framing tags, add_group on a plain tag, get_group_by_index below -len, integer
-   check of group tags).  One part of the property is still violated (equality with a container
-   is equality of rendered text, D18): the part that holds is `C18_eq_iff_content_partial`, whose
-   hypothesis is the negation of the known-finding class, the rest is `C18_eq_collision_refuted`. *)
+   The model describes message.py with all repairs of ledger D18 applied: fixes/C18-*.patch (dict
+   equality ignores the framing tags, add_group on a plain tag, get_group_by_index below -len,
+   integer check of group tags) and fixes/R11-container-equality-is-structural.patch (== with a
+   container compares content, not rendered text).  Every part of the property is stated at full
+   strength; no `_partial` / `_refuted` theorem is left. *)
 From Coq Require Import ZArith NArith List Bool.
 From AF Require Import Base.Sx Py.Str Fix.Container Fix.ContainerRun Lemmas.ContainerL.
 From AFGen Require Import GenEnums.
@@ -338,31 +338,58 @@ Print Assumptions C18_query_noncanonical.
 
 (* ------------------------------------------------------------------ equality with a container *)
 
-(* full statement of the property:  forall a b, c_eq a b = true <-> items a = items b  -- refuted *)
-Theorem C18_eq_iff_render : forall a b, c_eq a b = true <-> render a = render b.
-Proof. exact c_eq_iff_render. Qed.
-Print Assumptions C18_eq_iff_render.
+(* for ALL containers: == is exactly equality of content - the ordered list of (tag, value) pairs,
+   a group being the list of its items' contents and every error-class marker the same token *)
+Theorem C18_eq_iff_content : forall a b, c_eq a b = true <-> content a = content b.
+Proof. exact c_eq_iff_content. Qed.
+Print Assumptions C18_eq_iff_content.
 
-(* outside the known class (some tag, value or nested msg_type contains one of | = > [ ] , space,
-   a key is empty or starts with 'm', or a value is a class object) equality is equality of content *)
-Theorem C18_eq_iff_content_partial : forall a b,
-  clean a = true -> clean b = true -> (c_eq a b = true <-> items a = items b).
-Proof. exact eq_iff_content. Qed.
-Print Assumptions C18_eq_iff_content_partial.
+(* for containers of strings and plain FIXContainer items (no class objects, no FIXMessage as a group
+   item) the content is the items themselves *)
+Theorem C18_eq_iff_items : forall a b,
+  pure a = true -> pure b = true -> (c_eq a b = true <-> items a = items b).
+Proof. exact c_eq_iff_items_pure. Qed.
+Print Assumptions C18_eq_iff_items.
+
+Theorem C18_eq_same_items : forall a b, items a = items b -> c_eq a b = true.
+Proof. exact c_eq_same_items. Qed.
+Print Assumptions C18_eq_same_items.
+
+(* equal containers list the same tags in the same order *)
+Theorem C18_eq_keys : forall a b, c_eq a b = true -> keys a = keys b.
+Proof. exact c_eq_keys. Qed.
+Print Assumptions C18_eq_keys.
+
+(* == is an equivalence *)
+Theorem C18_eq_equivalence :
+  (forall a, c_eq a a = true) /\ (forall a b, c_eq a b = c_eq b a)
+  /\ (forall a b c, c_eq a b = true -> c_eq b c = true -> c_eq a c = true).
+Proof. exact (conj c_eq_refl (conj c_eq_sym c_eq_trans)). Qed.
+Print Assumptions C18_eq_equivalence.
+
+(* the former D18 collisions: same text, different content -> not equal; order matters; an error
+   marker is not the string "#err#" but equals any other error marker; the msg_type of a group item
+   and of the container itself is not content *)
+Example C18_eq_no_collision :
+  render w_a = render w_b /\ c_eq w_a w_b = false
+  /\ render w_c = render w_d /\ c_eq w_c w_d = false
+  /\ c_eq w_b w_e = false
+  /\ render w_err1 = render w_errs /\ c_eq w_err1 w_errs = false /\ c_eq w_err1 w_err2 = true
+  /\ c_eq w_m1 w_m2 = true.
+Proof. exact eq_no_collision. Qed.
+Print Assumptions C18_eq_no_collision.
+
+(* about __str__ (no longer about ==): the rendering is injective on containers whose tags, values
+   and nested msg types contain none of | = > [ ] , and space *)
+Theorem C18_str_injective_clean : forall a b,
+  clean a = true -> clean b = true -> (render a = render b <-> items a = items b).
+Proof. exact render_iff_clean. Qed.
+Print Assumptions C18_str_injective_clean.
 
 (* canonical decimal tags are always clean keys *)
 Theorem C18_decimal_tag_clean : forall z, clean_tag (z_to_dec z) = true.
 Proof. exact clean_tag_z_to_dec. Qed.
 Print Assumptions C18_decimal_tag_clean.
-
-(* D18: {1: "a|2=b"} == {1: "a", 2: "b"} *)
-Theorem C18_eq_collision_refuted : exists a b, c_eq a b = true /\ items a <> items b.
-Proof. exact eq_collision. Qed.
-Print Assumptions C18_eq_collision_refuted.
-
-Theorem C18_eq_content_refuted : ~ (forall a b, c_eq a b = true <-> items a = items b).
-Proof. exact eq_content_full_refuted. Qed.
-Print Assumptions C18_eq_content_refuted.
 
 (* ------------------------------------------------------------------ equality with a dict *)
 
